@@ -180,6 +180,9 @@ class Gen:
         env = dict(env)
         for _ in range(r.randint(1, 4)):
             k = r.random()
+            if self.opts['ext'] and r.random() < .2:
+                out.extend(self.ext_stmt(env, ind, d))
+                continue
             if k < .3:
                 t = r.choice([INT, INT, BOOL, FLOAT, STR] if self.opts['floats'] and self.opts['strs'] else [INT, INT, BOOL])
                 v = self.fresh('v')
@@ -244,8 +247,6 @@ class Gen:
                     it = self.fresh('it')
                     out.append('%sfor %s in %s:' % (ind, it, v))
                     out.extend(self.block({**env, it: INT}, ret, d - 1, ind + '\t', True))
-            elif k < .9 and self.opts['ext'] and r.random() < .75:
-                out.extend(self.ext_stmt(env, ind, d))
             elif k < .9 and in_loop:
                 self.use('break_continue')
                 out.append('%sif %s:' % (ind, self.expr(BOOL, env, 1)))
